@@ -88,6 +88,13 @@ def execute(c):
             b = _gbox(c["base"], c["b"], crs=None)
         ev["o"] = {"a_or_b": _res(lambda: a | b, _enc), "b_and_a": _res(lambda: b & a, _enc), "roi": _res(lambda: a.overlap_roi(b), _roi),
                    "ulist": _res(lambda: gu([a, b]), _enc), "ilist": _res(lambda: gi([b, a]), _enc)}
+        # nothing to combine is an error, one operand combines to itself
+        for fn in (gu, gi):
+            try:
+                fn([])
+                ev["o"]["a_or_b"] = {"oc": "ok", "v": []}      # an empty list was accepted: shows up as "not rejected"
+            except ValueError:
+                pass
     elif op == "snap":
         a = _gbox(c["base"], c["a"])
         b = _gbox(c["base"], c["b"], sub=c["sub"])
